@@ -243,7 +243,7 @@ func (it *MultIterator) NextValidity() (int, bool, error) {
 	if len(it.mask) == 0 {
 		return i, true, err
 	}
-	return i, it.mask[i], err
+	return i, !it.mask[i], err
 }
 
 // NextValid returns the index of the next valid coordinate
@@ -266,7 +266,7 @@ func (it *MultIterator) NextValid() (int, int, error) {
 			it.done = it.done || f.done
 		}
 		count++
-		invalid = !it.mask[it.fit0.lastIndex]
+		invalid = it.mask[it.fit0.lastIndex]
 	}
 	return it.fit0.lastIndex, mult * count, nil
 }
